@@ -702,7 +702,7 @@ CORE_CFGS = {
     "pub2": (["A", "B"], {"VP_CAP": "2", "VP_CTXPERSIST": "1", "VP_SETUP": "loop2"}),
     "ps3": (["A", "B", "C"], {"VP_CAP": "2", "VP_CTXPERSIST": "1", "VP_SETUP": "loop3"}),
     "sysmq": (["A", "B"], {"VP_CAP": "2", "VP_CTXPERSIST": "1", "VP_SETUP": "loop2"}),
-    "sysos": (["A", "B"], {"VP_CAP": "2", "VP_CTXPERSIST": "1", "VP_SETUP": "loop2"}),
+    "sysos": (["A", "B"], {"VP_FLAGS": "A:-,B:U", "VP_CAP": "2", "VP_CTXPERSIST": "1", "VP_SETUP": "loop2"}),
     "sysm": (["A", "B"], {"VP_CAP": "2", "VP_CTXPERSIST": "1", "VP_SETUP": "loop2"}),
     "sysc": (["A", "B"], {"VP_CAP": "3", "VP_CTXPERSIST": "1"}),
     "srca": (["A"], {"VP_CAP": "2", "VP_CTXPERSIST": "1", "VP_NKEYS": "2"}),
@@ -717,7 +717,7 @@ CORE_CFGS = {
     "tickh": (["A", "B"], {"VP_HOOKS": "A:s,B:e", "VP_CAP": "2", "VP_CTXPERSIST": "1"}),
     "mem": (["A", "B"], {"VP_CAP": "2", "VP_CTXPERSIST": "1", "VP_SETUP": "loop2", "VP_MAXPAY": "2"}),
     "memfd": (["A", "B"], {"VP_CAP": "2", "VP_CTXPERSIST": "1", "VP_SETUP": "loop2", "VP_NKEYS": "1"}),
-    "foreign": (["A", "B"], {"VP_HOOKS": "A:esx,B:x", "VP_CAP": "2"}),
+    "foreign": (["A", "B"], {"VP_HOOKS": "A:esx,B:x", "VP_FLAGS": "A:C,B:-", "VP_CAP": "2"}),
     "stashb": (["A", "B"], {"VP_CAP": "2", "VP_CTXPERSIST": "1", "VP_SETUP": "loop2", "VP_MAXPAY": "2", "VP_NKEYS": "1"}),
     "subos": (["A", "B"], {"VP_CAP": "2", "VP_CTXPERSIST": "1", "VP_SETUP": "loop2"}),
     "bc2": (["A", "B"], {"VP_CAP": "2", "VP_CTXPERSIST": "1", "VP_SETUP": "loop2", "VP_MAXPAY": "3"}),
@@ -835,7 +835,7 @@ def c16(prop, tier, seed):
 
 @check("C17")
 def c17(prop, tier, seed):
-    return core_check(prop, tier, seed, ["become"], ["become", "stash"],
+    return core_check(prop, tier, seed, ["become", "tb"], ["become", "tb", "stash"],
                       "Focus: handler stack changed from outside and inside handlers; which handler receives each invocation.", Dq=7, Dt=9)
 
 
